@@ -144,6 +144,7 @@ func init() {
 		l := sel(fr.vc.heap(fr.st, hn, arrSort(SInt, U.sortOf(st.Field(li).Type()))), a[0].T)
 		id := sx("ival", l)
 		fr.lockOblige("lock.wait-unheld", "Cond.Wait", pos, or(eq(sel(fr.lockW(), id), "1"), sx(">=", sel(fr.lockR(), id), "1")))
+		fr.curLockArg = av[0]
 		fr.onCondWait(id, pos)
 		return nil
 	}
@@ -205,6 +206,22 @@ func init() {
 	}
 	for _, n := range []string{"errors.New", "fmt.Errorf", "github.com/aptpod/iscp-go/errors.New", "github.com/aptpod/iscp-go/errors.Errorf"} {
 		S[n] = nonNilErr
+	}
+	// context constructors: non-nil context, non-nil cancel function without effect on module heaps
+	ctxCtor := func(fr *Frame, c *ssa.CallCommon, a []*Val, av []ssa.Value, pos token.Pos) *Val {
+		rt := resultType(c)
+		v := fr.freshVal("ctx", rt)
+		if len(v.Tup) == 2 {
+			fr.vc.assume(fr.reach, not(eq(sx("itag", v.Tup[0].T), "0")))
+			fr.vc.assume(fr.reach, not(eq(v.Tup[1].T, "0")))
+			v.Tup[1].PureFn = true
+		} else if v.S == SIface {
+			fr.vc.assume(fr.reach, not(eq(sx("itag", v.T), "0")))
+		}
+		return v
+	}
+	for _, n := range []string{"context.WithCancel", "context.WithTimeout", "context.WithDeadline", "context.Background", "context.TODO", "context.WithValue", "context.WithCancelCause", "context.WithoutCancel"} {
+		S[n] = ctxCtor
 	}
 	S["time.Now"] = func(fr *Frame, c *ssa.CallCommon, a []*Val, av []ssa.Value, pos token.Pos) *Val {
 		return fr.freshVal("now", resultType(c))
@@ -353,6 +370,7 @@ func (fr *Frame) beWrite(b, v *Val, n int, pos token.Pos) {
 	vc := fr.vc
 	fr.safety("bounds", fmt.Sprintf("BigEndian.PutUint%d", n*8), pos, sx("<=", num(int64(n)), sx("slen", b.T)))
 	hn, hs := fr.U().elemHeapT(types.Typ[types.Uint8])
+	fr.markDirty(hn, "")
 	h := vc.heap(fr.st, hn, hs)
 	row := sel(h, sx("sarr", b.T))
 	for j := 0; j < n; j++ {
